@@ -25,10 +25,9 @@ theorem size_le_slots (h : run cfg ops = some (s, tr)) : s.entries.length ≤ cf
 
 /-- Fresh (hits): whenever a lookup returns a cached value `v` for `k` at time `t`, that value was put for `k` by a load that
 finished at some `t0 ≤ t` with `t - t0 < lifetime`; and the lookup is the one that was just issued. -/
-theorem never_stale (h : run cfg ops = some (s, tr)) (hs : step cfg s op = some (s', e)) (c k : Nat) (v : Val) (t : Nat)
+theorem never_stale_of_inv (hi : Cache.Inv cfg s tr) (hs : step cfg s op = some (s', e)) (c k : Nat) (v : Val) (t : Nat)
     (hh : Ev.hit c k v t ∈ e) :
     op = Op.lookup c k ∧ t = s.now ∧ ∃ t0, Ev.put k v t0 ∈ tr ∧ t0 ≤ t ∧ t < t0 + cfg.lifetime := by
-  have hi := reach_inv (run_reach h)
   cases op with
   | lookup c' k' =>
     simp only [step] at hs
@@ -75,6 +74,13 @@ theorem never_stale (h : run cfg ops = some (s, tr)) (hs : step cfg s op = some 
   | advance dt =>
     simp only [step] at hs
     simp at hs; obtain ⟨rfl, rfl⟩ := hs; simp at hh
+
+/-- Fresh (hits): whenever a lookup returns a cached value `v` for `k` at time `t`, that value was put for `k` by a load that
+finished at some `t0 ≤ t` with `t - t0 < lifetime`; and the lookup is the one that was just issued. -/
+theorem never_stale (h : run cfg ops = some (s, tr)) (hs : step cfg s op = some (s', e)) (c k : Nat) (v : Val) (t : Nat)
+    (hh : Ev.hit c k v t ∈ e) :
+    op = Op.lookup c k ∧ t = s.now ∧ ∃ t0, Ev.put k v t0 ∈ tr ∧ t0 ≤ t ∧ t < t0 + cfg.lifetime :=
+  never_stale_of_inv cfg s s' tr e op (reach_inv (run_reach h)) hs c k v t hh
 
 /-- Fresh (waiters): when the load of `k` returns `v`, every caller waiting for it receives exactly `v`, in the very step that
 puts `v` into the cache. -/
@@ -288,6 +294,30 @@ theorem turn_stays_reachable (h : run cfg ops = some (s, tr)) (blocks : List Op)
     Reach cfg s' (tr ++ e) :=
   turn_reach blocks (run_reach h) hs
 
+/-! ## several cache instances in one process -/
+
+/-- Frame property: a block addressed to cache instance `j` (a lookup, the completion or failure of ITS load function, the
+cancellation of one of ITS callers) changes nothing in any other instance — neither its cached values nor its loads in flight. -/
+theorem instances_do_not_interfere (m m' : Multi) (j : Nat) (e : List Ev) (h : mstep m (.at j op) = some (m', e)) (i : Nat)
+    (hij : i ≠ j) : m'[i]? = m[i]? :=
+  mstep_frame h i hij
+
+/-- Every instance of a process with several caches behaves as a single cache on its own: after any interleaving of blocks of
+all the instances, each instance's state is a reachable state of the single-cache model with its OWN history — so every theorem
+above holds per instance. -/
+theorem each_instance_is_a_cache (cfgs : List Config) (mops : List MOp) (m : Multi)
+    (h : mrun (Multi.start cfgs) mops = some m) : ∀ x ∈ m, Reach x.1 x.2.1 x.2.2 :=
+  mrun_eachReach mops (eachReach_start cfgs) h
+
+/-- In particular: a value returned by instance `j` for key `k` was produced by instance `j`'s OWN load function for `k` (it is
+in `j`'s own history), less than `j`'s lifetime ago — whatever the other instances cache or load under an equal key. -/
+theorem value_comes_from_own_loader (cfgs : List Config) (mops : List MOp) (m : Multi)
+    (h : mrun (Multi.start cfgs) mops = some m) (j : Nat) (cfgj : Config) (sj : State) (trj : List Ev)
+    (hj : m[j]? = some (cfgj, sj, trj)) (hs : step cfgj sj op = some (s', e)) (c k : Nat) (v : Val) (t : Nat)
+    (hh : Ev.hit c k v t ∈ e) : ∃ t0, Ev.put k v t0 ∈ trj ∧ t0 ≤ t ∧ t < t0 + cfgj.lifetime := by
+  have hr := each_instance_is_a_cache cfgs mops m h _ (List.mem_of_getElem? hj)
+  exact (never_stale_of_inv cfgj sj s' trj e op (reach_inv hr) hs c k v t hh).2.2
+
 /-- The repaired defect, kept as a witness: for the code BEFORE the repair the same statement is false.  Callers 0 and 1 look up
 key 7 (one shared load); cancelling caller 0 cancels the load, and caller 1 raises `CancelledError` although nobody cancelled it
 and its load did not fail. -/
@@ -330,6 +360,10 @@ example : run ⟨3, 1⟩ [.lookup 0 5, .loadOk 5 none, .lookup 1 5, .lookup 2 6,
 -- caller 2 starts a load of its own
 example : turn ⟨3, 1⟩ ⟨0, [], [(7, [0, 1])]⟩ ⟨0, [], [(7, [0, 1])]⟩ [.loadFail 7, .lookup 2 7]
     = some (⟨0, [], [(7, [2])]⟩, [.loadFailed 7, .failed 0 7, .failed 1 7, .started 7, .joined 2 7]) := by decide
+-- two instances, equal key 7: each runs its own load; instance 1's completion does not touch instance 0
+example : mrun (Multi.start [⟨3, 1⟩, ⟨2, 2⟩]) [.at 0 (.lookup 0 7), .at 1 (.lookup 1 7), .at 1 (.loadOk 7 71), .at 0 (.loadOk 7 70)]
+    = some [(⟨3, 1⟩, ⟨0, [⟨7, 70, 3⟩], []⟩, [.started 7, .joined 0 7, .put 7 70 0, .loaded 0 7 70 0]),
+            (⟨2, 2⟩, ⟨0, [⟨7, 71, 2⟩], []⟩, [.started 7, .joined 1 7, .put 7 71 0, .loaded 1 7 71 0])] := by decide
 -- not behaviours: finishing a load that is not in flight; a suspended caller calling lookup again
 example : run ⟨3, 1⟩ [.loadOk 7 1] = none := by decide
 example : run ⟨3, 1⟩ [.lookup 0 7, .lookup 0 8] = none := by decide
